@@ -162,9 +162,17 @@ func (a *auditor) buildGraph(only ...string) *graph {
 
 // check evaluates the C06 invariants restricted to objects of the given packages
 // (pkgid hex prefixes); all=true checks every object.
-func (g *graph) check(pkgids map[string]bool, all bool) []string {
-	var out []string
-	out = append(out, g.errs...)
+type issue struct {
+	kind string
+	msg  string
+}
+
+func (g *graph) check(pkgids map[string]bool, all bool) []issue {
+	var out []issue
+	add := func(kind, format string, args ...any) { out = append(out, issue{kind, fmt.Sprintf(format, args...)}) }
+	for _, e := range g.errs {
+		add("undecodable-object", "%s", e)
+	}
 	in := map[string]int{}       // incoming persisted references
 	holders := map[string][]string{}
 	for _, id := range sortedObjIDs(g.objs) {
@@ -187,16 +195,16 @@ func (g *graph) check(pkgids map[string]bool, all bool) []string {
 			continue
 		}
 		if !o.hashOK {
-			out = append(out, fmt.Sprintf("%s (%s): stored hash != hash(stored bytes)", id, o.typ))
+			add("stored-hash", "%s (%s): stored hash != hash(stored bytes)", id, o.typ)
 		}
 		for _, r := range o.refs {
 			t, ok := g.objs[r.to]
 			if !ok {
-				out = append(out, fmt.Sprintf("%s (%s) references missing object %s", id, o.typ, r.to))
+				add("dangling-reference", "%s (%s) references missing object %s", id, o.typ, r.to)
 				continue
 			}
 			if !r.escaped && r.hash != "" && !strings.EqualFold(r.hash, t.hash) {
-				out = append(out, fmt.Sprintf("%s holds hash %s for child %s whose stored hash is %s", id, r.hash, r.to, t.hash))
+				add("anomaly:child-hash-stale-in-parent", "%s holds hash %s for child %s whose stored hash is %s", id, r.hash, r.to, t.hash)
 			}
 		}
 		isPkg := strings.HasSuffix(o.typ, "PackageValue")
@@ -204,14 +212,14 @@ func (g *graph) check(pkgids map[string]bool, all bool) []string {
 			continue
 		}
 		if o.refCount != in[id] {
-			out = append(out, fmt.Sprintf("%s (%s): RefCount %d but %d persisted references (held by %v)", id, o.typ, o.refCount, in[id], holders[id]))
+			add("refcount", "%s (%s): RefCount %d but %d persisted references (held by %v)", id, o.typ, o.refCount, in[id], holders[id])
 		}
 		if o.owner != "" {
 			if o.escaped {
-				out = append(out, fmt.Sprintf("%s (%s): escaped but still records owner %s", id, o.typ, o.owner))
+				add("escaped-with-owner", "%s (%s): escaped but still records owner %s", id, o.typ, o.owner)
 			}
 			if o.refCount != 1 {
-				out = append(out, fmt.Sprintf("%s (%s): records owner %s with RefCount %d", id, o.typ, o.owner, o.refCount))
+				add("owner-with-refcount-not-1", "%s (%s): records owner %s with RefCount %d", id, o.typ, o.owner, o.refCount)
 			}
 			held := false
 			for _, h := range holders[id] {
@@ -220,13 +228,17 @@ func (g *graph) check(pkgids map[string]bool, all bool) []string {
 				}
 			}
 			if !held {
-				out = append(out, fmt.Sprintf("%s (%s): recorded owner %s does not hold a reference to it (holders %v)", id, o.typ, o.owner, holders[id]))
+				if _, exists := g.objs[o.owner]; exists {
+					add("owner-does-not-hold-reference", "%s (%s): recorded owner %s exists but does not hold a reference to it (holders %v)", id, o.typ, o.owner, holders[id])
+				} else {
+					add("owner-no-longer-exists", "%s (%s): recorded owner %s is not a persisted object (any more); the reference is held by %v", id, o.typ, o.owner, holders[id])
+				}
 			}
 		} else if o.refCount == 1 && !o.escaped {
-			out = append(out, fmt.Sprintf("%s (%s): singly referenced, not escaped, but no owner recorded", id, o.typ))
+			add("no-owner-recorded", "%s (%s): singly referenced, not escaped, but no owner recorded", id, o.typ)
 		}
 		if o.refCount > 1 && !o.escaped {
-			out = append(out, fmt.Sprintf("%s (%s): RefCount %d but not marked escaped", id, o.typ, o.refCount))
+			add("shared-not-escaped", "%s (%s): RefCount %d but not marked escaped", id, o.typ, o.refCount)
 		}
 	}
 	// reachability from packages
@@ -252,7 +264,7 @@ func (g *graph) check(pkgids map[string]bool, all bool) []string {
 	}
 	for _, id := range sortedObjIDs(g.objs) {
 		if want(id) && !reach[id] && !inCycle(g, id) {
-			out = append(out, fmt.Sprintf("%s (%s): persisted, not part of a cycle, yet unreachable from any package", id, g.objs[id].typ))
+			add("unreachable", "%s (%s): persisted, not part of a cycle, yet unreachable from any package", id, g.objs[id].typ)
 		}
 	}
 	return out
